@@ -484,8 +484,8 @@ def run(ctx):
     mc_cfgs = ["ids", "mux2", "mux3"] if quick else ["ids_t", "mux2_t", "mux3_t"]
     adp_cfgs = [ctx.pick("adpclose", "adpclose_t"), "adpclose_kf"]
     with ThreadPoolExecutor(max_workers=5) as mcex:
-        futs = start_mc(ctx, mcex, mc_cfgs, workers=ctx.pick(3, 4), timeout=ctx.pick(300, 840))
-        afuts = start_mc(ctx, mcex, adp_cfgs, workers=ctx.pick(2, 3), timeout=ctx.pick(300, 840), module="MC_ClientMuxAdp")
+        futs = start_mc(ctx, mcex, mc_cfgs, workers=ctx.pick(3, 4), timeout=ctx.pick(900, 3000))
+        afuts = start_mc(ctx, mcex, adp_cfgs, workers=ctx.pick(2, 3), timeout=ctx.pick(900, 3000), module="MC_ClientMuxAdp")
         exe = gobuild.build(ctx, "muxdrive")
         per, maxk, shards = ctx.pick(10, 100), ctx.pick(32, 128), ctx.pick(8, 10)
         ctx.log("harness built")
